@@ -12,16 +12,16 @@ SCHEDULE_DEPENDENT = True
 RULE = ('2-4 simulated threads each execute 1-3 source-line statements on one attribute of one instance of a class built '
         'with MetaThreadSafeAttributes: reads (x = o.a), plain assignments (o.a = k) and augmented assignments (o.a OP= k, also o.a OP= o.a, '
         'OP from + - * // ** << >> | & ^ %); the scheduler (sticky walk / PCT) may switch at every line and every bytecode of '
-        '__get__/__set__ and of the client statements; second stratum: the attribute belongs to an ActiveObjectWithAttributes and the statements of one thread run inside the object\'s event handlers (its own thread) while client threads use the attribute from outside. Oracle: no statement raises; no deadlock (a thread parked for ever); '
+        '__get__/__set__ and of the client statements; second stratum: the attribute belongs to an ActiveObjectWithAttributes and the statements of one thread run inside the object\'s event handlers (its own thread) while client threads use the attribute from outside; third stratum: the statements live in helper functions (dst.a += src.a, dst.a += k, dst.a = k, x = src.a), so one source line is executed with objects of two classes that both declare `a`, first by one thread alone, then by 2-3 threads at once (serialisability over both values). Oracle: no statement raises; no deadlock (a thread parked for ever); '
         'serialisability: the final value and every value read are explained by some total order of the executed statements '
         'that respects each thread\'s program order (found by search over the <= 9 statements). Non-trivial = a context switch '
         'happened while a thread was between the read and the write of an augmented assignment; distinct = distinct '
         '(statement kinds per thread, interleaving of statement begin/end events) tuples.')
 ASSUMPTIONS = ['single instance, single attribute (independence of instances is C29)']
-PROBES = ['switch_inside_augmented_assignment', 'statements_in_active_object_handler']
+PROBES = ['switch_inside_augmented_assignment', 'statements_in_active_object_handler', 'one_source_line_with_objects_of_two_classes']
 PLAN = {
-  'quick': {'strata': {'threads': 6000, 'active-object': 1500}, 'wall_s': 300, 'chunk': 100, 'min_conclusive': 1000},
-  'thorough': {'strata': {'threads': 150000, 'active-object': 40000}, 'wall_s': 900, 'chunk': 250, 'min_conclusive': 10000},
+  'quick': {'strata': {'threads': 6000, 'active-object': 1500, 'shared-lines': 2500}, 'wall_s': 300, 'chunk': 100, 'min_conclusive': 1000},
+  'thorough': {'strata': {'threads': 150000, 'active-object': 40000, 'shared-lines': 60000}, 'wall_s': 900, 'chunk': 250, 'min_conclusive': 10000},
 }
 OPS = {'+=': operator.add, '-=': operator.sub, '*=': operator.mul, '//=': operator.floordiv, '**=': operator.pow,
        '<<=': operator.lshift, '>>=': operator.rshift, '|=': operator.or_, '&=': operator.and_, '^=': operator.xor,
@@ -39,8 +39,206 @@ def text(st):
   return 'o.a %s %d' % (st['op'], st['k'])
 
 
+# ---------------------------------------------------------------- stratum "shared-lines"
+# The statements live in small helper functions, so one source line is executed with different objects - of two
+# classes that both declare an attribute `a` - first by one thread alone, then by several at once.
+HELPERS = '''def bump(dst, src):
+  dst.a += src.a
+def inc(dst, k):
+  dst.a += k
+def put(dst, k):
+  dst.a = k
+def get(src):
+  x = src.a
+  return x
+'''
+
+
+def text2(st):
+  o = ['p', 'q']
+  if st['f'] == 'bump':
+    return 'bump(%s, %s)   # %s.a += %s.a' % (o[st['dst']], o[st['src']], o[st['dst']], o[st['src']])
+  if st['f'] == 'inc':
+    return 'inc(%s, %d)   # %s.a += %d' % (o[st['dst']], st['k'], o[st['dst']], st['k'])
+  if st['f'] == 'put':
+    return 'put(%s, %d)   # %s.a = %d' % (o[st['dst']], st['k'], o[st['dst']], st['k'])
+  return 'get(%s)   # x = %s.a' % (o[st['src']], o[st['src']])
+
+
+def gen_shared(rng):
+  uniq = [0]
+
+  def stmt(direction):
+    f = rng.choices(['bump', 'inc', 'put', 'get'], weights=[4, 3, 1, 2])[0]
+    uniq[0] += 1
+    if f == 'bump':
+      return {'f': 'bump', 'dst': direction, 'src': 1 - direction}
+    if f == 'inc':
+      return {'f': 'inc', 'dst': rng.randrange(2), 'k': 10 ** (uniq[0] % 7) + uniq[0]}
+    if f == 'put':
+      return {'f': 'put', 'dst': rng.randrange(2), 'k': 100 + 7 * uniq[0]}
+    return {'f': 'get', 'src': rng.randrange(2)}
+  d1 = rng.randrange(2)
+  d2 = rng.choice([d1, 1 - d1, 1 - d1])       # all concurrent bumps go one way: opposite ways can deadlock by lock order, which no listed property covers
+  prefix = [stmt(d1) for _ in range(rng.randrange(1, 4))]
+  if not any(st['f'] == 'bump' for st in prefix) and rng.random() < 0.7:
+    prefix.append({'f': 'bump', 'dst': d1, 'src': 1 - d1})
+  nthreads = rng.randrange(2, 4)
+  threads = [[stmt(d2) for _ in range(rng.randrange(1, 4))] for _ in range(nthreads)]
+  if not any(st['f'] == 'bump' for t in threads for st in t):
+    threads[0][0] = {'f': 'bump', 'dst': d2, 'src': 1 - d2}
+    if len(threads[1]) < 3:
+      threads[1].append({'f': 'bump', 'dst': d2, 'src': 1 - d2})
+  return {'host': 'shared-lines', 'prefix': prefix, 'threads': threads, 'same_class': rng.random() < 0.25,
+          'sched': common.draw_sched(rng, grans=('line', 'opcode'), weights=(1, 2), expected_steps=300, policies=('sticky', 'pct'))}
+
+
+def apply2(st, state):
+  """returns (new state, value read or None)"""
+  v = list(state)
+  if st['f'] == 'bump':
+    v[st['dst']] = v[st['dst']] + v[st['src']]
+    return tuple(v), None
+  if st['f'] == 'inc':
+    v[st['dst']] += st['k']
+    return tuple(v), None
+  if st['f'] == 'put':
+    v[st['dst']] = st['k']
+    return tuple(v), None
+  return state, state[st['src']]
+
+
+def serialisable2(threads, start, reads, final, done):
+  n = len(threads)
+  seen = set()
+  stack = [(tuple([0] * n), start)]
+  while stack:
+    pos, state = stack.pop()
+    if (pos, state) in seen:
+      continue
+    seen.add((pos, state))
+    if all(pos[i] >= done[i] for i in range(n)):
+      if state == final:
+        return True
+      continue
+    for i in range(n):
+      if pos[i] >= done[i]:
+        continue
+      st = threads[i][pos[i]]
+      ns, rd = apply2(st, state)
+      if st['f'] == 'get':
+        ri = sum(1 for x in threads[i][:pos[i]] if x['f'] == 'get')
+        if ri < len(reads[i]) and reads[i][ri] != rd:
+          continue
+      stack.append((pos[:i] + (pos[i] + 1,) + pos[i + 1:], ns))
+  return False
+
+
+_helper_code = []
+
+
+def execute_shared(sc, sched):
+  import linecache
+  res = RunResult()
+  sim = common.new_sim(sc, sched, max_steps=150000)
+  if not _helper_code:
+    fname = '<tsa-helpers>'
+    linecache.cache[fname] = (len(HELPERS), None, HELPERS.splitlines(True), fname)
+    _helper_code.append(compile(HELPERS, fname, 'exec'))
+  seams.enable_events_for([_helper_code[0]], opcode=True)
+  ns = {}
+  exec(_helper_code[0], ns)
+  cls_p = tc.make_class(['a'], 'ThingP')
+  cls_q = cls_p if sc.get('same_class') else tc.make_class(['a'], 'ThingQ')
+  objs = [cls_p(), cls_q()]
+  threads = sc['threads']
+  n = len(threads)
+  reads = [[] for _ in range(n)]
+  done = [0] * n
+  errors = []
+  pre_reads = []
+  go = [False]
+
+  def run_stmt(st):
+    if st['f'] == 'bump':
+      ns['bump'](objs[st['dst']], objs[st['src']])
+    elif st['f'] == 'inc':
+      ns['inc'](objs[st['dst']], st['k'])
+    elif st['f'] == 'put':
+      ns['put'](objs[st['dst']], st['k'])
+    else:
+      return ns['get'](objs[st['src']])
+    return None
+
+  def client(k):
+    try:
+      if k == 0:
+        for st in sc['prefix']:
+          r = run_stmt(st)
+          if st['f'] == 'get':
+            pre_reads.append(r)
+        go[0] = True
+      elif not go[0]:
+        sim.block(lambda: go[0], None, 'barrier')
+      for i, st in enumerate(threads[k]):
+        sim.record('c27', 'stmt', 'begin', (k, i))
+        r = run_stmt(st)
+        if st['f'] == 'get':
+          reads[k].append(r)
+        done[k] = i + 1
+        sim.record('c27', 'stmt', 'end', (k, i))
+    except kernel.SimAbort:
+      raise
+    except BaseException as e:  # noqa
+      import traceback
+      errors.append((k, done[k], type(e).__name__, traceback.format_exc()[-600:]))
+      go[0] = True
+
+  for k in range(n):
+    sim.spawn(client, (k,), role='client')
+  reason = sim.run()
+  scripts = {'first, alone': [text2(st) for st in sc['prefix']], 'then, at once': [[text2(st) for st in t] for t in threads],
+             'classes': 'p and q are instances of %s' % ('one class' if sc.get('same_class') else 'two classes that both declare a')}
+  locks = [tc.lock_of(cls_p, 'a'), tc.lock_of(cls_q, 'a')]
+  if reason == 'budget':
+    res.outcome, res.reason = 'inconclusive', 'step budget'
+  elif errors:
+    k, i, typ, tb = errors[0]
+    res.violate('statement-raised', {'exc': typ, 'kind': 'shared-line'}, 'thread %d statement %d raised %s\n%s\nscripts: %s' % (k, i, typ, tb, scripts))
+  elif any(t.state != kernel.DONE for t in sim.threads):
+    stuck = [t for t in sim.threads if t.state != kernel.DONE]
+    res.violate('deadlock', {'at': stuck[0].desc.split(':')[0], 'kind': 'shared-line'},
+                'threads parked for ever: %s; lock owners %s\nscripts: %s' % (
+                  [(t.name, t.desc) for t in stuck], [l.owner_name() for l in locks if isinstance(l, prims.SimRLock)], scripts))
+  elif any(isinstance(l, prims.SimRLock) and l._owner is not None for l in locks):
+    res.violate('deadlock', {'at': 'final-read', 'kind': 'shared-line'}, 'every thread has finished but a lock is still owned (%s): reading the final values would block for ever\nscripts: %s' % (
+      [l.owner_name() for l in locks if isinstance(l, prims.SimRLock)], scripts))
+  else:
+    final = (objs[0].a, objs[1].a)
+    state = (0, 0)
+    exp_pre = []
+    for st in sc['prefix']:
+      state, rd = apply2(st, state)
+      if st['f'] == 'get':
+        exp_pre.append(rd)
+    if pre_reads != exp_pre:
+      res.violate('not-serialisable', {'ops': ['sequential-prefix'], 'kind': 'shared-line'}, 'the statements run by one thread alone read %s, expected %s\nscripts: %s' % (pre_reads, exp_pre, scripts))
+    elif not serialisable2(threads, state, reads, final, done):
+      res.violate('not-serialisable', {'ops': sorted(set(st['f'] for t in threads for st in t)), 'kind': 'shared-line'},
+                  'after the sequential part the values were %s; final values %r and reads %s are not explained by any serial order\nscripts: %s' % (state, final, reads, scripts))
+  sim.probe('one_source_line_with_objects_of_two_classes')
+  res.nontrivial.append(hash(('shared', tuple(tuple((kernel._stable(st['f']), st.get('dst', -1), st.get('src', -1)) for st in t) for t in [sc['prefix']] + threads),
+                              sim.switch_signature())))
+  if res.outcome == 'violation' or sched.get('seed', 0) % 499 == 0:
+    res.sample = dict(scripts, reads=reads)
+  common.finish(sim, res)
+  return res
+
+
 def generate(seed, stratum, tier):
   rng = random.Random(seed)
+  if stratum == 'shared-lines':
+    return gen_shared(rng)
   nthreads = rng.randrange(2, 5)
   per = 3 if nthreads <= 3 else 2
   threads = []
@@ -87,6 +285,21 @@ def generate(seed, stratum, tier):
 
 
 def shrink_candidates(sc):
+  if sc.get('host') == 'shared-lines':
+    th = sc['threads']
+    pre = sc['prefix']
+    for j in range(len(pre) - 1, -1, -1):
+      yield dict(sc, prefix=pre[:j] + pre[j + 1:])
+    if len(th) > 2:
+      for i in range(len(th)):
+        yield dict(sc, threads=th[:i] + th[i + 1:])
+    for i, s_ in enumerate(th):
+      if len(s_) > 1:
+        for j in range(len(s_) - 1, -1, -1):
+          yield dict(sc, threads=th[:i] + [s_[:j] + s_[j + 1:]] + th[i + 1:])
+    if sc['sched'].get('gran') == 'opcode':
+      yield dict(sc, sched=dict(sc['sched'], gran='line'))
+    return
   th = sc['threads']
   if len(th) > 2:
     for i in range(len(th)):
@@ -276,6 +489,8 @@ def execute_ao(sc, sched):
 def execute(sc, sched):
   if sc.get('host') == 'ao':
     return execute_ao(sc, sched)
+  if sc.get('host') == 'shared-lines':
+    return execute_shared(sc, sched)
   res = RunResult()
   sim = common.new_sim(sc, sched, max_steps=150000)
   cls = tc.make_class(['a'])
